@@ -7,6 +7,7 @@ mod enumgen;
 mod enumprops;
 mod gen;
 mod prng;
+mod readmeprops;
 mod ser;
 mod termprops;
 mod unicode;
@@ -54,6 +55,7 @@ fn main() {
         "C10" => enumprops::run_c10(&o),
         "C12" => enumprops::run_c12(&o),
         "C15" => enumprops::run_c15(&o),
+        "C11" => readmeprops::run_c11(&o),
         _ => { eprintln!("unknown property {prop}"); std::process::exit(2); }
     };
     rep.write(&o.outdir).expect("write report");
